@@ -282,6 +282,9 @@ UNICODE_FORMS = ("e\u0301", "a\u0303b", "\u1112\u1161\u11ab", "\u212b", "\u2126"
                  "I\u0307", "\u01c5", "\u00df", "\u1e9e", "A\u030a", "\u00c5")
 
 
+LINE_BOUNDARY_CHARS = ("\x0b", "\x0c", "\x1c", "\x1d", "\x1e", "\x85", "\u2028", "\u2029")
+
+
 def layer_unicode_forms():
     """labels and names that are not in Unicode normalisation form C / KC, that change under case folding, or that are canonically equivalent to
     another entry of this list: the text is kept code point for code point"""
@@ -291,6 +294,13 @@ def layer_unicode_forms():
         yield ("A", (u, "name"), skeleton(iname=u), 1e-8)
     for a, b in (("e\u0301", "\u00e9"), ("A\u030a", "\u00c5"), ("\u212b", "\u00c5"), ("I\u0307", "i\u0307")):
         yield ("A", (a + "|" + b, "both"), skeleton(l1=a, l2=b, iname=a, pname=b), 1e-8)
+    # characters that str.splitlines() takes for line boundaries and the TextGrid format does not (vertical tab, form feed, the information
+    # separators, NEL, LINE / PARAGRAPH SEPARATOR), and a character beyond the basic plane at the start of a label: all of them ordinary label text
+    for ch in LINE_BOUNDARY_CHARS + ("\U00020bb7",):
+        # (at the START of a label most of them would be stripped as white space - that is the constructor's documented business, not the file's)
+        for u in ("left" + ch + "right",) + ((ch + "x",) if not ch.isspace() else ()):
+            yield ("A", (u, "ilabel1"), skeleton(l1=u), 1e-8)
+            yield ("A", (u, "plabel"), skeleton(pm=u), 1e-8)
 
 
 MUTATIONS = ("insert-interval", "insert-point", "delete-interval", "add-tier", "remove-tier", "rename-tier", "replace-tier")
